@@ -60,6 +60,7 @@ const (
 	OFpToSInt  // FP -> BV64, amd64 cvttsd2sq semantics
 	OFpSame    // SMT = on FP: same value incl. sign of zero
 	OFpOfSIntR // BV64 (signed) -> FP, RNE, possibly inexact (no integer shortcuts)
+	OFpTrunc   // round to integral, toward zero (math.Trunc)
 )
 
 const (
@@ -91,6 +92,8 @@ type TermTable struct {
 	nary map[string]*Term
 	next int
 	T, F *Term
+	// sintSrc: int64 terms built by bvToSInt -> the float bits they were converted from
+	sintSrc map[int]*Term
 }
 
 func NewTermTable() *TermTable {
@@ -659,7 +662,12 @@ func (tt *TermTable) FpUn(op Op, a *Term) *Term {
 			return tt.FPConst(-fpc(a))
 		case OFpAbs:
 			return tt.FPConst(math.Abs(fpc(a)))
+		case OFpTrunc:
+			return tt.FPConst(math.Trunc(fpc(a)))
 		}
+	}
+	if op == OFpTrunc && a.op == OFpOfSInt {
+		return a // an exact integer
 	}
 	return tt.mk(&Term{op: op, w: SortFP, args: []*Term{a}})
 }
@@ -714,6 +722,9 @@ func (tt *TermTable) FpToSInt(a *Term) *Term {
 	}
 	if i, ok := fpExactInt(a); ok {
 		return i
+	}
+	if a.op == OFpOfBits {
+		return tt.bvToSInt(a.args[0])
 	}
 	return tt.mk(&Term{op: OFpToSInt, w: 64, args: []*Term{a}})
 }
@@ -824,6 +835,10 @@ func (t *Term) smt(sb *strings.Builder) {
 		sb.WriteString(")")
 	case OFpAbs:
 		sb.WriteString("(fp.abs ")
+		t.args[0].smt(sb)
+		sb.WriteString(")")
+	case OFpTrunc:
+		sb.WriteString("(fp.roundToIntegral RTZ ")
 		t.args[0].smt(sb)
 		sb.WriteString(")")
 	case OFpIsNaN:
@@ -1068,6 +1083,8 @@ func (t *Term) Eval(m Model) (uint64, bool) {
 		return vs[0] ^ (1 << 63), true
 	case OFpAbs:
 		return vs[0] &^ (1 << 63), true
+	case OFpTrunc:
+		return math.Float64bits(math.Trunc(math.Float64frombits(vs[0]))), true
 	case OFpEq:
 		return b2u(math.Float64frombits(vs[0]) == math.Float64frombits(vs[1])), true
 	case OFpLt:
